@@ -295,7 +295,7 @@ theorem C16_refuse_at_cap (s : SM) (n : Nat) (h : s.nb ≥ s.max) :
 /-- **C16 (accepting resumes).** A `decr` that brings the load under 90 % of the
     cap re-opens the accept gate. -/
 theorem C16_accept_resumes (s s' : SM) (h : decr s = some s')
-    (hlow : s'.nb < s.max * Consts.sessResumeNum / Consts.sessResumeDen) : s'.canAccept = true := by
+    (hlow : s'.nb < Nat.max (s.max * Consts.sessResumeNum / Consts.sessResumeDen) Consts.sessResumeFloor) : s'.canAccept = true := by
   unfold decr at h
   split at h
   · simp at h
@@ -309,44 +309,44 @@ def drain : Nat → SM → Option SM
   | 0, s => some s
   | n + 1, s => (decr s).bind (drain n)
 
-/-- **C16 (accepting resumes once idle), partial: needs `max ≥ 2`.** When every
-    connection is gone the gate is open again. -/
-theorem C16_idle_accepts_partial (s : SM) (hmax : 2 ≤ s.max) (hnb : 0 < s.nb) :
+/-- **C16 (accepting resumes once idle).** When every connection is gone the
+    accept gate is open again, for every cap (the `max_connections = 1` case was
+    defect F20, repaired by the `.max(1)` floor in `decr`). -/
+theorem C16_idle_accepts (s : SM) (hnb : 0 < s.nb) :
     ∃ s', drain s.nb s = some s' ∧ s'.nb = 0 ∧ s'.canAccept = true := by
-  have key : ∀ k (s : SM), 2 ≤ s.max → s.nb = k + 1 →
-      ∃ s', drain (k + 1) s = some s' ∧ s'.nb = 0 ∧ s'.canAccept = true ∧ s'.max = s.max := by
+  have key : ∀ k (s : SM), s.nb = k + 1 →
+      ∃ s', drain (k + 1) s = some s' ∧ s'.nb = 0 ∧ s'.canAccept = true := by
     intro k
     induction k with
     | zero =>
-      intro s hm hn
+      intro s hn
       have hne : ¬ s.nb = 0 := by omega
-      have h90 : 0 < s.max * Consts.sessResumeNum / Consts.sessResumeDen := by
-        simp only [Consts.sessResumeNum, Consts.sessResumeDen]; omega
-      refine ⟨decrT s, ?_, ?_, ?_, rfl⟩
+      have h90 : 0 < Nat.max (s.max * Consts.sessResumeNum / Consts.sessResumeDen) Consts.sessResumeFloor := by
+        simp only [Consts.sessResumeFloor]; exact Nat.lt_of_lt_of_le (by decide) (Nat.le_max_right _ _)
+      refine ⟨decrT s, ?_, ?_, ?_⟩
       · simp only [drain, decr, hne, if_false, Option.bind_some]
       · simp [decrT, hn]
       · simp only [decrT, hn]; cases s.canAccept <;> simp [h90]
     | succ k ih =>
-      intro s hm hn
+      intro s hn
       have hne : ¬ s.nb = 0 := by omega
-      obtain ⟨s', h1, h2, h3, h4⟩ := ih (decrT s) hm (by simp [decrT]; omega)
-      refine ⟨s', ?_, h2, h3, h4⟩
+      obtain ⟨s', h1, h2, h3⟩ := ih (decrT s) (by simp [decrT]; omega)
+      refine ⟨s', ?_, h2, h3⟩
       rw [drain]
       simp only [decr, hne, if_false, Option.bind_some]
       exact h1
   obtain ⟨k, hk⟩ : ∃ k, s.nb = k + 1 := ⟨s.nb - 1, by omega⟩
-  obtain ⟨s', h1, h2, h3, _⟩ := key k s hmax hk
+  obtain ⟨s', h1, h2, h3⟩ := key k s hk
   exact ⟨s', hk ▸ h1, h2, h3⟩
 
-/-- The excluded point really fails in the model (and on the real code, see
-    known finding F20): with `max_connections = 1` the gate never re-opens. -/
-theorem C16_idle_accepts_counterexample :
+/-- regression for F20: the former failing history now re-opens the gate. -/
+theorem C16_idle_accepts_max1_regression :
     let s0 := SM.new 1 0
     let s1 := (checkLimits s0 0).1
     let s2 := (incr s1).getD s1
     let s3 := (checkLimits s2 0).1
     let s4 := (decr s3).getD s3
-    s4.nb = 0 ∧ s4.canAccept = false := by decide
+    s3.canAccept = false ∧ s4.nb = 0 ∧ s4.canAccept = true := by decide
 
 -- non-vacuity: a concrete state satisfying the hypotheses of the theorems above
 example : Coh (run (SM.new 3 2) [.track 1 7 9, .track 2 7 9, .untrack 1]) :=
@@ -357,7 +357,7 @@ example : ∀ o ∈ [Op.admission 1 7 9 none, .admission 2 7 9 none, .admission 
 example : (step (run (SM.new 3 2) [.admission 1 7 9 none, .admission 2 7 9 none]) (.admission 3 7 9 none)).2 = .bool false := by
   decide
 example : (checkLimits (SM.new 3 0) 0).2 = true := by decide
-example : ∃ s', decr { SM.new 10 0 with nb := 9, canAccept := false } = some s' ∧ s'.nb < 10 * Consts.sessResumeNum / Consts.sessResumeDen :=
+example : ∃ s', decr { SM.new 10 0 with nb := 9, canAccept := false } = some s' ∧ s'.nb < Nat.max (10 * Consts.sessResumeNum / Consts.sessResumeDen) Consts.sessResumeFloor :=
   ⟨_, rfl, by decide⟩
 
 end Sozu.Sessions
